@@ -281,3 +281,42 @@ func ZZ_C08_CrashResidue() {
 	}
 	zzReach("C08.residue.done")
 }
+
+// A failed operation is retried: one file-system call of the operation fails, the
+// failure is reported, and the same request is sent again (what the controller and the
+// sync code do).  If the retry reports success, its effect is on disk: a fresh process
+// opening the directory - no orderly close in between - sees the live replica's chain,
+// attributes, size and checkpoint.
+func ZZ_C08_FailThenRetry() {
+	fs, r, op, snaps := zzC08Setup()
+	if op == 7 {
+		return // Close: nothing to retry on a closed replica
+	}
+	total := zzParam("MAXSTEPS", 60)
+	fs.Steps = 0
+	fs.FailAt = zzConcretize(zzChoice("failAt", total))
+	opname := zzC08Ops[op]
+	zzTrapFatal()
+	var err error
+	rn := r
+	ended := zzTry(func() { err, rn = zzRunC08Op(r, op, snaps) })
+	if !fs.Failed {
+		zzAssume(false)
+	}
+	if ended || err == nil {
+		return // exit, or the failure was tolerated: covered by ZZ_C08_Fail
+	}
+	fs.FailAt = -1
+	fs.Failed = false
+	var err2 error
+	rn2 := rn
+	ended2 := zzTry(func() { err2, rn2 = zzRunC08Op(rn, op, snaps) })
+	zzAssert(!ended2, "C08.retry."+opname+"-terminated-the-process-without-a-fault")
+	if ended2 || err2 != nil {
+		zzReach("C08.retry.refused")
+		return
+	}
+	zzReach("C08.retry.accepted")
+	live := zzMemDigest(rn2)
+	zzReopenCheck("C08.retry-success."+opname, fs, live)
+}
